@@ -730,6 +730,73 @@ class SegmentAnalysis:
         return res
 
 
+def check_progress(sa, C, cursors):
+    """Termination argument for the cursor loops of a body (partition_mut, remove_nan_mut):
+       (1) every cursor is monotone over every segment between loop heads (ghost copies of the cursors are added to the zone
+           state at the segment's start and compared at its end: x_end − x_start ≥ 0 for all segments, or ≤ 0 for all);
+       (2) every *back-edge* segment (its target head dominates its start) moves at least one monotone cursor strictly;
+       (3) an increasing cursor is bounded above, a decreasing one below, by a loop-invariant quantity or by a cursor moving the
+           other way, in the zone invariant of its loop heads.
+    (1)–(3) give a measure (the distance between opposite cursors / to the bound) that is non-increasing on every segment and
+    strictly decreasing on every cycle; the calls inside the loops are comparisons, swaps and indexing (terminating).
+    → (ok, detail, n_segments)"""
+    from .zones import INF
+    b = sa.b
+    segs = []
+    for s in sa.heads:
+        facts0 = C.get(s, set())
+        for path in sa.segments_from(s):
+            tgt = path[-1]
+            if tgt not in sa.heads:
+                continue
+            st0 = sa.initial_state(s, facts0)
+            for x in cursors:
+                g = "G" + x
+                if g not in st0.d.vars:
+                    st0.d.vars.append(g)
+                st0.d.add(g, x, 0)
+                st0.d.add(x, g, 0)
+            finals = sa.run_path(path, st0)
+            finals = [st for st in finals if not st.d.bottom and not st.dead]
+            if not finals:
+                continue
+            lo = {x: min(-st.d.get("G" + x, x) if st.d.get("G" + x, x) != INF else -INF for st in finals) for x in cursors}
+            hi = {x: max(st.d.get(x, "G" + x) for st in finals) for x in cursors}
+            segs.append((s, tgt, path, lo, hi))
+    if not segs:
+        return False, "no loop segment analysed", 0
+    direction = {}
+    for x in cursors:
+        if all(sg[3][x] >= 0 for sg in segs):
+            direction[x] = +1
+        elif all(sg[4][x] <= 0 for sg in segs):
+            direction[x] = -1
+    back = [sg for sg in segs if b.dominates(sg[1], sg[0])]
+    for (s, tgt, path, lo, hi) in back:
+        strict = [x for x, d_ in direction.items() if (d_ > 0 and lo[x] >= 1) or (d_ < 0 and hi[x] <= -1)]
+        if not strict:
+            return False, ("the loop cycle bb%d → … → bb%d (through %s) moves no cursor strictly: %s" % (
+                s, tgt, path, ", ".join("%s changes by [%s, %s]" % ((sa.b.local_name(int(x[1:])) or x) if x[1:].isdigit() else x, lo[x], hi[x]) for x in cursors))), len(segs)
+    # boundedness in the zone invariants of the heads
+    for x, d_ in direction.items():
+        moved = any((d_ > 0 and sg[3][x] >= 1) or (d_ < 0 and sg[4][x] <= -1) for sg in back)
+        if not moved:
+            continue
+        for h in sa.heads:
+            inv = sa.za.states.get(h)
+            if inv is None:
+                continue
+            others = [v for v in inv.vars if v != x and (v not in direction or direction[v] == -d_)]
+            if d_ > 0:
+                bounded = any(inv.get(x, v) != INF for v in others)
+            else:
+                bounded = any(inv.get(v, x) != INF for v in others)
+            if not bounded:
+                return False, "cursor %s moves %s without a bound in the invariant of bb%d" % (x, "up" if d_ > 0 else "down", h), len(segs)
+    return True, "%d segments between loop heads, %d back-edge segments; monotone cursors: %s" % (
+        len(segs), len(back), ", ".join("%s%s" % ((sa.b.local_name(int(x[1:])) or x if x[1:].isdigit() else x), "↑" if d_ > 0 else "↓") for x, d_ in sorted(direction.items()))), len(segs)
+
+
 def show_term(t, sa):
     v = {"Z": "", "N": "len"}.get(t[0])
     if v is None:
